@@ -177,15 +177,15 @@ Guard(s, e) ==
       [] e.op = "SetAttrsR" -> TRUE                \* the inherit-attributes flag (LattrsR) on (e.a = 1) / off
       \* global flags: e.k in SetFlags AddFlags RemoveFlags ResetFlags SaveFlagsAndMod(add e.a, remove e.b)
       \* RestoreFlags (call the e.a-th restore function obtained so far; any of them, any number of times)
-      [] e.op = "Flags" -> CASE e.k \in {"SetFlags", "AddFlags", "RemoveFlags"} -> e.a \in DOMAIN FlagSets
-                             [] e.k = "ResetFlags" -> TRUE
-                             [] e.k = "SaveFlagsAndMod" -> e.a \in DOMAIN FlagSets /\ e.b \in DOMAIN FlagSets
-                             [] e.k = "RestoreFlags" -> e.a \in DOMAIN s.savedf
-                             [] OTHER -> FALSE
+      [] e.op = "Flags" -> (CASE e.k \in {"SetFlags", "AddFlags", "RemoveFlags"} -> e.a \in DOMAIN FlagSets
+                              [] e.k = "ResetFlags" -> TRUE
+                              [] e.k = "SaveFlagsAndMod" -> e.a \in DOMAIN FlagSets /\ e.b \in DOMAIN FlagSets
+                              [] e.k = "RestoreFlags" -> e.a \in DOMAIN s.savedf
+                              [] OTHER -> FALSE)
       \* package level: ResetLevel, Reset, SaveLevelAndSet(e.a), RestoreLevel (e.a-th restore function)
-      [] e.op = "PkgLevel" -> CASE e.k \in {"ResetLevel", "Reset", "SaveLevelAndSet"} -> TRUE
-                                [] e.k = "RestoreLevel" -> e.a \in DOMAIN s.savedl
-                                [] OTHER -> FALSE
+      [] e.op = "PkgLevel" -> (CASE e.k \in {"ResetLevel", "Reset", "SaveLevelAndSet"} -> TRUE
+                                 [] e.k = "RestoreLevel" -> e.a \in DOMAIN s.savedl
+                                 [] OTHER -> FALSE)
       [] e.op = "LogA" -> e.l \in Live(s)          \* a call through entry point e.k, severity e.a, message class e.mc, arguments e.args
       [] e.op = "LogF" -> e.l \in Live(s)          \* a record of severity e.a under fault assignment FailSets[e.b]
       [] OTHER -> FALSE
@@ -219,20 +219,20 @@ Step(s, e) ==
       [] e.op = "SetAttrsR" -> {[s EXCEPT !.attrsR = (e.a = 1),
                                            !.flags = IF e.a = 1 THEN s.flags \cup {"attrsR"} ELSE s.flags \ {"attrsR"}]}
       [] e.op = "Flags" ->
-           LET nf == CASE e.k = "SetFlags" -> FlagSets[e.a]
-                       [] e.k = "AddFlags" -> s.flags \cup FlagSets[e.a]
-                       [] e.k = "RemoveFlags" -> s.flags \ FlagSets[e.a]
-                       [] e.k = "ResetFlags" -> StdFlags
-                       [] e.k = "SaveFlagsAndMod" -> (s.flags \cup FlagSets[e.a]) \ FlagSets[e.b]
-                       [] e.k = "RestoreFlags" -> s.savedf[e.a]
+           LET nf == (CASE e.k = "SetFlags" -> FlagSets[e.a]
+                        [] e.k = "AddFlags" -> s.flags \cup FlagSets[e.a]
+                        [] e.k = "RemoveFlags" -> s.flags \ FlagSets[e.a]
+                        [] e.k = "ResetFlags" -> StdFlags
+                        [] e.k = "SaveFlagsAndMod" -> (s.flags \cup FlagSets[e.a]) \ FlagSets[e.b]
+                        [] e.k = "RestoreFlags" -> s.savedf[e.a])
            IN {[s EXCEPT !.flags = nf, !.attrsR = ("attrsR" \in nf),
                          !.savedf = IF e.k = "SaveFlagsAndMod" THEN Append(s.savedf, s.flags) ELSE s.savedf]}
       [] e.op = "PkgLevel" ->
            LET SetTo(t, v) == [t EXCEPT !.deflvl = v, !.cfg[t.deflog].level = v, !.dbg = t.dbg \/ v = Debug]
-           IN CASE e.k = "ResetLevel" -> {SetTo(s, Warn)}
-                [] e.k = "Reset" -> {[SetTo(s, Warn) EXCEPT !.flags = StdFlags, !.attrsR = FALSE]}
-                [] e.k = "SaveLevelAndSet" -> {[SetTo(s, e.a) EXCEPT !.savedl = Append(s.savedl, s.deflvl)]}
-                [] e.k = "RestoreLevel" -> {SetTo(s, s.savedl[e.a])}
+           IN (CASE e.k = "ResetLevel" -> {SetTo(s, Warn)}
+                 [] e.k = "Reset" -> {[SetTo(s, Warn) EXCEPT !.flags = StdFlags, !.attrsR = FALSE]}
+                 [] e.k = "SaveLevelAndSet" -> {[SetTo(s, e.a) EXCEPT !.savedl = Append(s.savedl, s.deflvl)]}
+                 [] e.k = "RestoreLevel" -> {SetTo(s, s.savedl[e.a])})
       [] e.op = "LogF" -> {s}                        \* logging never changes the configuration; no fault state exists
 
 \* the logger a call returns (0: nothing / not a logger)
